@@ -173,9 +173,12 @@ def run_item(item):
           {"bad": bad[:4]})
     oc["descriptors-in-base"] = len(m0.astereo) + len(m0.bstereo)
     P = perm_family(n, tier)[item["lo"]:item["hi"]]
-    for pi in P:
+    for k, pi in enumerate(P):
         ident = list(pi) == list(range(n))
-        for label, R, t, refl in motions(tier, seed, few=not ident):
+        # quick: full motion grid on the identity order, two motions on every other order; thorough: full grid on every
+        # order of molecules with <= 6 atoms and on every 7th order of 7-atom molecules
+        full = ident or (tier == "thorough" and (n <= 6 or (n == 7 and (item["lo"] + k) % 7 == 0)))
+        for label, R, t, refl in motions(tier, seed, few=not full):
             moved = xyz @ R.T + t
             els1 = [els[j] for j in pi]
             xyz1 = moved[list(pi)]
